@@ -397,6 +397,11 @@ func (e *Enc) binop(in *ssa.BinOp) {
 			if !(cx && cy) {
 				e.oblige("ovf", exprText(in.X)+op+exprText(in.Y), in.Pos(), and(app("<=", lo, r), app("<=", r, hi)))
 			}
+			if isUnsigned(in.Type()) && !(cx && cy) && e.wrapUnsigned() {
+				// unsigned arithmetic wraps (defined behaviour): where the overflow obligation is not claimed the value
+				// must still be the wrapped one
+				r = app("mod", r, app("+", hi, "1"))
+			}
 			b(r)
 		case token.QUO:
 			e.oblige("div", exprText(in.Y), in.Pos(), not(eq(y.c[0], "0")))
@@ -553,6 +558,11 @@ func (e *Enc) convert(in *ssa.Convert, st *State) {
 		// narrowing wraps in Go; model the in-range case exactly, otherwise unconstrained in range
 		r := e.freshVal("conv", to)
 		e.assume(imp(and(app("<=", lo, x.c[0]), app("<=", x.c[0], hi)), eq(r.c[0], x.c[0])))
+		if e.wrapUnsigned() {
+			// exact two's-complement conversion: the result is the representative of x modulo 2^n in the target range
+			m := app("+", app("-", hi, lo), "1")
+			e.assume(and(app("<=", lo, r.c[0]), app("<=", r.c[0], hi), eq(app("mod", r.c[0], m), app("mod", x.c[0], m))))
+		}
 		e.set(in, r)
 	case isString(to):
 		if sl, ok := from.Underlying().(*types.Slice); ok {
@@ -859,6 +869,9 @@ func (e *Enc) strlt(a, b string) string {
 	}
 	return app(f, a, b)
 }
+
+// wrapUnsigned: the function under contract opts into wrap-around semantics for unsigned arithmetic (`mode wrap`).
+func (e *Enc) wrapUnsigned() bool { return e.con != nil && strings.Contains(e.con.Mode, "wrap") }
 
 // numLess: < on two numeric values of the same Go type (integers; bit-vectors in mode bitvector).
 func (e *Enc) numLess(a, b *Val) string {
